@@ -5168,6 +5168,15 @@ set_trait_post_setattr(trait_object *trait, PyObject *value, void *closure)
         return -1;
     }
 
+    if (trait->setattr == setattr_validate_property) {
+        /* A validated property keeps its setter in the 'post_setattr' slot. */
+        PyErr_SetString(
+            PyExc_ValueError,
+            "The post_setattr hook of a validated Property trait cannot be "
+            "changed.");
+        return -1;
+    }
+
     if (value == Py_None) {
         value = NULL;
         trait->post_setattr = NULL;
